@@ -15,3 +15,9 @@ static inline void iora_connect_on_close(int fd) { if (GC.open_fds > 0 && fd == 
   __CPROVER_loop_invariant(G_ai_node.ai_addr == G_ai_addrp && G_ai_node.ai_addrlen <= sizeof(sockaddr_storage) && GC.ai_left <= 0xffffffffu) \
   __CPROVER_loop_invariant(GC.gai_calls == 1 && GC.free_calls == 0 && GC.addEpoll_calls == 0 && !GC.tag_set) \
   __CPROVER_decreases(GC.ai_left + (ai != NULL ? 1 : 0)))
+/* viaDo, loop 1: search the first node of the listener's family; nothing chosen while the loop goes round */
+#define IORA_LOOP_UdpEngine_viaDo_1 IORA_LC( \
+  __CPROVER_assigns(ai, chosen, GC.ai_left, G_ai_node) \
+  __CPROVER_loop_invariant(chosen == NULL && GC.list_live && (ai == NULL || ai == G_ai_nodep)) \
+  __CPROVER_loop_invariant(G_ai_node.ai_addr == G_ai_addrp && G_ai_node.ai_addrlen <= sizeof(sockaddr_storage) && GC.ai_left <= 0xffffffffu) \
+  __CPROVER_decreases(GC.ai_left + (ai != NULL ? 1 : 0)))
